@@ -13,7 +13,7 @@ func init() {
 	register(&Prop{
 		ID:         "C13",
 		Title:      "Primary keys identify items faithfully and are enforced",
-		Decided:    "(R1) the function that renders a composite key must use an injective encoding (per-component quoting/escaping of the separator, a length prefix, or %q): joining raw renderings with a constant separator that can occur inside a component is recognised as the non-injective idiom; (R2) at every call site of keySchema.GetKey the error result is extracted and tested (the only accepted discard is the sparse-index case inside GetKey itself); (R3) in the key-attribute accessors the case for type label X returns field X of the attribute and tests presence of that same field, and a value is produced only on the present∧typed edges; (R4) UpdateItem re-derives the key of the updated item before committing and rejects a change; (R5) GetItem/Delete/Update address Table.Data with the key derived from the request's Key by the table's own schema (shared with C01.R3); (R6) no function on the key derivation path rounds, trims, folds or re-formats a component (shared with C01.R8): two different key values never become one key string; (R7) the declared type of an attribute decides how its key text is built and which requests are well typed: every write into Table.AttributesDef that a client operation other than table creation can reach is guarded by a test that the attribute is not defined yet; (R8) in both clients every success return of PutItem, UpdateItem, DeleteItem and GetItem is dominated by a call into the engine that derives the key with the table's schema (the only place a missing or wrongly typed key attribute is rejected): a shortcut that answers before that call accepts malformed keys; (R9) SET stores a copy of its operand (= C07.R11): otherwise `SET next = seq ADD next :one` increments the key attribute seq through the object the two names share.",
+		Decided:    "(R1) the function that renders a composite key must use an injective encoding (per-component quoting/escaping of the separator, a length prefix, or %q): joining raw renderings with a constant separator that can occur inside a component is recognised as the non-injective idiom; (R2) at every call site of keySchema.GetKey the error result is extracted and tested (the only accepted discard is the sparse-index case inside GetKey itself); (R3) in the key-attribute accessors the case for type label X returns field X of the attribute and tests presence of that same field, and a value is produced only on the present∧typed edges; (R4) UpdateItem re-derives the key of the updated item before committing and rejects a change; (R5) GetItem/Delete/Update address Table.Data with the key derived from the request's Key by the table's own schema (shared with C01.R3); (R6) no function on the key derivation path rounds, trims, folds or re-formats a component (shared with C01.R8): two different key values never become one key string; (R7) the declared type of an attribute decides how its key text is built and which requests are well typed: every write into Table.AttributesDef that a client operation other than table creation can reach is guarded by a test that the attribute is not defined yet; (R8) in both clients every success return of PutItem, UpdateItem, DeleteItem and GetItem is dominated by a call into the engine that derives the key with the table's schema (the only place a missing or wrongly typed key attribute is rejected): a shortcut that answers before that call accepts malformed keys; (R9) SET stores a copy of its operand (= C07.R11): otherwise `SET next = seq ADD next :one` increments the key attribute seq through the object the two names share; (R10) the bare errors of the key derivation never reach a v2 caller unwrapped (error-class dataflow through helpers and the mapper).",
 		NotDecided: "that the rendering of each single component is itself injective per type (%v of a string, of a number literal: see C12 for numerals); attribute types that DynamoDB does not allow as keys.",
 		Rules: []RuleDef{
 			{ID: "R1", Desc: "composite key encoding is injective (idiom rule on the key-rendering function)", Run: c13R1},
@@ -56,6 +56,7 @@ func init() {
 			}},
 			{ID: "R8", Desc: "single-item operations report success only after the engine has validated the key: every success return of the client methods is dominated by the core call that derives the key", Run: c13R8},
 			{ID: "R9", Desc: "an update cannot change a key attribute through a shared object: SET stores a copy of its operand (= C07.R11)", Run: aliasRule("R9", c07R11, nil)},
+			{ID: "R10", Desc: "a malformed key is rejected with a validation error: the bare errors of the key derivation reach a v2 caller only wrapped (error-class dataflow)", Run: c13R10},
 		},
 	})
 }
